@@ -2,6 +2,7 @@
 #define CONVERTER_FLAT_H
 
 #include <unordered_map>
+#include <unordered_set>
 #include <map>
 #include <cmath>
 #include <utility>
@@ -539,6 +540,7 @@ public:
     if (var_names_.size()) {
       /// Check that constr / obj names are present too?
       GetValuePresolver().CleanUpNameNodes();
+      used_con_names_.clear();
       // They are at top level of the reformulation tree
       TransferNames2Node((SOS1Constraint*)nullptr);
       TransferNames2Node((SOS2Constraint*)nullptr);
@@ -550,6 +552,11 @@ public:
                         });
       const auto& vcs = vm.GetVarValues()();    // vars
       std::vector<std::string> vs(vcs.begin(), vcs.end());
+      {                        // counted names of items derived at
+        std::unordered_set<std::string> used;   // different levels can coincide
+        for (auto& nm: vs)
+          nm = MakeUniqueName(std::move(nm), used);
+      }
       BaseFlatModel::AddVarNames(vs);
       const auto& ocs = vm.GetObjValues()();    // objs
       auto& obj = BaseFlatModel::get_objectives();
@@ -557,6 +564,25 @@ public:
       for (auto i=obj.size(); i--;)
         obj[i].set_name(ocs[i]);
       ConstraintManager::CopyNamesFromValueNodes();  // cons
+    }
+  }
+
+  /// Make a constraint name unique among the constraints
+  /// passed to the solver. Used by constraint keepers in PresolveNames()
+  std::string MakeUniqueConName(std::string nm)
+  { return MakeUniqueName(std::move(nm), used_con_names_); }
+
+  /// Make \a nm different from all names in \a used and add it there.
+  /// Derived items get the source's name plus a counter, so items
+  /// derived at different levels could end up with the same name.
+  static std::string MakeUniqueName(
+      std::string nm, std::unordered_set<std::string>& used) {
+    if (nm.empty() || used.insert(nm).second)
+      return nm;
+    for (int k=2; ; ++k) {
+      auto nm1 = nm + '_' + std::to_string(k) + '_';
+      if (used.insert(nm1).second)
+        return nm1;
     }
   }
 
@@ -1265,6 +1291,8 @@ private:
   var_names_,
   con_names_,   // no SOS here, they go directly into the SOS
   obj_names_;
+  /// Names of constraints passed to the solver, see MakeUniqueConName()
+  std::unordered_set<std::string> used_con_names_;
 
 
 protected:
